@@ -46,13 +46,15 @@ def worker(loc, seed, n, out):
             if op < 0.11:
                 # evicting / clearing users: the property is about the CALLS of cached functions made meanwhile;
                 # two clearers racing each other may see FileNotFoundError from rm_subdirs (noted, not part of C11)
-                try:
-                    if op < 0.08:
-                        mem.reduce_size(items_limit=rnd.choice([0, 2]))
-                    else:
+                if op < 0.08:
+                    # eviction tolerates entries that vanish while it takes its inventory or deletes (get_items skips them, enforce_store_limits
+                    # swallows OSError: both proved in the c18 pack) - an exception here is caused by the concurrent activity
+                    mem.reduce_size(items_limit=rnd.choice([0, 2]))
+                else:
+                    try:
                         mem.clear(warn=False)
-                except OSError:
-                    pass
+                    except OSError:
+                        pass
             else:
                 r = f(x)
                 if r != work(x):
